@@ -162,6 +162,8 @@ class C07(c01.C01):
         verdicts = []
         for direction in (1, -1):
             set_bnode_order(direction)
+            observe.export_decoy("rdf")
+            set_bnode_order(direction)
             try:
                 text = doc.serialize(format="rdf")
                 d2 = ProvDocument.deserialize(content=text, format="rdf")
